@@ -66,6 +66,31 @@ def correspond(ctx, scale=1):
     cases = countlib.seam_cases(rng, 110 * scale) + countlib.shape_cases(rng, 160 * scale) + countlib.exhaustive_small(40) + countlib.top_cases(rng, 3 * scale)
     variants = ("default", "portable") if ctx.thorough else ("default",)
     ev, mm, samples, sigs, dist = run_counts(ctx, cases, [1], variants, "count-primes")
+    # segment skeleton: the segments the real Erat sieves vs the geometry model, at every magnitude (cheap: no sieving primes)
+    kp = ps.build_probe("kernel_probe"); model = ps.build_model()
+    sk = []
+    for (a, b, kb, why) in cases:
+        if a >= 7 and a <= b:
+            sk.append((a, b, kb))
+    for _ in range(300 * scale):
+        kb = rng.choice(countlib.SIEVE_SIZES + [8192, 1000])
+        a = max(7, rng.below(1 << rng.between(3, 64)))
+        # at most a few thousand segments (16 KiB minimum segment = 491520 numbers)
+        b = min((1 << 64) - 1, a + rng.below(min(1 << rng.between(3, 34), 2000 * 491520)))
+        if rng.chance(1, 5):
+            b = (1 << 64) - 1 - rng.below(40); a = b - rng.below(2000 * 491520)
+        sk.append((a, b, kb))
+    rc, o, e = ps.run([kp], input="".join("SEGS %d %d %d\nGEOM %d %d %d\n" % (c + c) for c in sk), timeout=600)
+    li = o.splitlines()
+    rcm, om, em = ps.run([model], input="".join("LEAF segs %s %d %d %d\n" % (li[2 * i + 1].split()[5], c[2], c[0], c[1]) for i, c in enumerate(sk) if 2 * i + 1 < len(li)), timeout=900)
+    dist["segment_skeletons"] = len(sk)
+    for i, (c, m) in enumerate(zip(sk, om.splitlines())):
+        ev += 1
+        impl = li[2 * i].strip()
+        sigs.add(("segs", impl.count("|") > 1, c[1] > (1 << 64) - (1 << 40)))
+        if impl != m.strip():
+            mm.append({"key": "segments", "what": "segments of Erat(start=%d, stop=%d, %d KiB): implementation %s ; model %s" % (c[0], c[1], c[2], impl[:200], m.strip()[:200]), "failing_input": None})
+    mm.sort(key=lambda m_: 0 if m_.get("failing_input") else 1)
     return {"evaluations": ev, "distinct_nontrivial": len(sigs),
             "rule": "intervals aimed at segment seams (geometry queried from the real Erat::init for sieve sizes %s), stops on/just past a seam, p*q on the last bit of a segment, byte/bit edges, start <= 5 < stop, stop = p*q, empty and one-byte intervals, all 0 <= a <= b < 40; threads 1/2/4/16. distinct = distinct (build, reason, sieve size, start mod 30, stop mod 30)" % countlib.SIEVE_SIZES,
             "samples": samples, "mismatches": mm[:20], "distribution": dist, "variants": list(variants)}
